@@ -6,6 +6,7 @@ array is empty and the first `Push` indexes it out of range.
 Witness: `NewSync[struct{}](1<<31 + 1)`.
 -/
 import Golib.Model.C10Sync
+import Golib.Model.C10Ring
 
 namespace Golib.C10.Findings
 open Golib.C10
@@ -48,5 +49,20 @@ example :
     ((SyncRing.init? 3).bind fun r => (r.push 2).bind fun (r1, _) =>
       (reinitPreFix r1 5).map fun r2 => (r2.len, r2.isEmpty, r2.pop.map (·.2.2))) =
       some (1, false, some false) := by decide +kernel
+
+/-! ### seeded C10-G: one-expression `Len` overflows at capacities near `math.MaxInt` -/
+
+/-- Go `int64` wrap-around and truncated remainder. -/
+def wrap64 (x : Int) : Int := (x + 2 ^ 63) % 2 ^ 64 - 2 ^ 63
+
+/-- `(r.tail - r.head + r.cap) % r.cap + 1` as Go evaluates it. -/
+def lenOneExpr (head tail cap : Int) : Int :=
+  wrap64 (Int.tmod (wrap64 (wrap64 (tail - head) + cap)) cap + 1)
+
+/-- `New[struct{}](math.MaxInt)` after two pushes (`head = 0`, `tail = 1`): the
+one-expression form answers `0`, the coded two-branch form `2`. -/
+example : lenOneExpr 0 1 (2 ^ 63 - 1) = 0 ∧
+    (⟨[], 0, 1, 2 ^ 63 - 1⟩ : Golib.C10.Ring).len = 2 := by
+  constructor <;> decide +kernel
 
 end Golib.C10.Findings
